@@ -292,6 +292,11 @@ def main():
     casei_proof(rep, nmfu, program)
     c_literal_exhaustive(rep, nmfu)
     binary_string_exhaustive(rep, nmfu)
+    # chain shape of the literal builders for ALL literals and action lists (per-iteration contract, pyvc) + L-chain (Lean): shape => language
+    from . import leaf_proofs
+    from .. import lemmas
+    leaf_proofs.run(rep, "C15", ["DirectMatch", "CaseDirectMatch"], nmfu, program)
+    lemmas.check(rep, "C15", "Chain.lean", ["run_eq_spec", "spec_done_iff", "spec_fail_iff"])
     ps = shape_and_bytes(rep, nmfu)
     # emitted C for the all-bytes programs: proved against the DFA (whose chains were just checked against the spelling)
     from . import _tvcommon as T
@@ -307,7 +312,11 @@ def main():
     text = ("_convert_string: loop invariant result == Dec(contents[:i]) with Dec the fold of the spelling table (\\n \\r \\t \\b \\0 \\\" \\\\ \\xHH, other characters themselves) proved by z3 from VCs generated on the real AST "
             "(pre-condition: well-formed spelling units; only definition unfoldings of the two spec functions are supplied). _convert_char_const and _convert_int proved against their spelling specs. Finite domains decided by exhaustion through the real functions: "
             "ASCII case folding (256 bytes), C literal emission (all bytes and all ordered byte pairs lexed back), binary strings (all hex pairs). Literal chains of programs spelling all 256 bytes in match / casei / binary / assignment / default position "
-            "checked state by state, and the emitted C of those programs proved against the DFA (csem).")
+            "checked state by state, and the emitted C of those programs proved against the DFA (csem). "
+            "DirectMatch.convert / CaseDirectMatch.convert: per-iteration shape contract of the chain-building loop discharged by pyvc for an arbitrary position of an arbitrary literal and arbitrary action lists "
+            "(state j gets exactly {W[j]} (resp. the list of _create_casei_from(W[j])) -> fresh state j+1, consuming, and Else -> handler as fall-through error transition; start actions only at position 0, "
+            "finish actions and acceptance only at the last position; prologue establishes / each iteration re-establishes the pre-state); L-chain (Lean 4, vf/lemmas/Chain.lean) lifts that shape to "
+            "'accepts exactly the literal, fails at the first differing byte'.")
     return rep.finish(text, checker_cmd="./check C15")
 
 
